@@ -314,4 +314,149 @@ theorem inv_mkSysX {κ : Nat → String} {s : State} (h : InvK κ s) (o : Nat) (
       · intro u κ3 s3 hinv3 hext3 hb3 _
         exact Good.refl hinv3
 
+/-! ### `System(…, safecopy=True)`: the given atoms are left alone -/
+
+theorem sys_push_last (s : State) (y : SysObj) :
+    ({ s with syss := s.syss ++ [y] } : State).sys s.syss.length = y := by
+  simp [State.sys]
+
+/-- `System(...)` once more, with what the caller gets back: the new system is bound to the atoms and the box handed in. -/
+theorem mkSys_result {κ : Nat → String} {s : State} (h : InvK κ s) (o : Nat) (box : Box Rat) (pbc : List Bool)
+    (symbols : Option (List (Option String))) (masses : Option (List (Option Rat))) (ho : o < s.objs.length) :
+    Post (mkSys o box pbc symbols masses) s (fun r s' => SysKept κ s s' ∧
+      ∀ i, r = .ok i → (s'.sys i).atoms = o ∧ (s'.sys i).box = box) := by
+  unfold mkSys
+  rw [post_atomic]
+  simp only []
+  rw [post_bind]
+  apply Post.of_eq _ _ (pushSys_eq _ s)
+  simp only []
+  have hk0 := inv_pushSys h ⟨o, box, [true, true, true], [], []⟩ ho rfl
+  have hlast := sys_push_last s ⟨o, box, [true, true, true], [], []⟩
+  have hlt : s.syss.length < ({ s with syss := s.syss ++ [⟨o, box, [true, true, true], [], []⟩] } : State).syss.length := by
+    simp
+  rw [post_bind]
+  apply Post.mono (inv_pbcSet hk0.inv _ pbc)
+  intro r s1 hk1
+  cases r with
+  | error e => exact ⟨SysKept.refl h, fun i hc => by cases hc⟩
+  | ok u =>
+    simp only []
+    rw [post_bind]
+    apply Post.mono (inv_symbolsSet hk1.1.inv _ _)
+    intro r s2 ⟨hk2, _⟩
+    cases r with
+    | error e => exact ⟨SysKept.refl h, fun i hc => by cases hc⟩
+    | ok u =>
+      simp only []
+      rw [post_bind]
+      apply Post.mono (inv_massesSet hk2.1.inv _ _)
+      intro r s3 ⟨hk3, _⟩
+      cases r with
+      | error e => exact ⟨SysKept.refl h, fun i hc => by cases hc⟩
+      | ok u =>
+        simp only []
+        rw [post_pure]
+        refine ⟨((hk0.trans hk1.1).trans hk2.1).trans hk3.1, ?_⟩
+        intro i hi
+        have : i = s.syss.length := by
+          have : (Except.ok s.syss.length : Except Err Nat) = .ok i := hi
+          injection this with this; exact this.symm
+        subst this
+        have h13 := ((hk1.1.trans hk2.1).trans hk3.1).sys s.syss.length hlt
+        rw [hlast] at h13
+        exact h13
+
+/-- buffers below `n` and objects below `m` are literally the same in `s'` (`FrameOK` without the systems: a
+    constructor of a `System` adds one). -/
+def ObjFrame (n m : Nat) (s s' : State) : Prop :=
+  (∀ b, b < n → s'.buf b = s.buf b) ∧ (∀ o, o < m → s'.obj o = s.obj o)
+
+theorem ObjFrame.refl (n m : Nat) (s : State) : ObjFrame n m s s := ⟨fun _ _ => rfl, fun _ _ => rfl⟩
+
+theorem mkSysX_safecopy_frame {κ : Nat → String} {s : State} (h : InvK κ s) (hb : Boundary s) (o : Nat) (box : Box Rat)
+    (pbc : List Bool) (symbols : Option (List (Option String))) (masses : Option (List (Option Rat))) (scale : Bool)
+    (ho : o < s.objs.length) :
+    Post (mkSysX o box pbc symbols masses scale true) s (fun r s' => ObjFrame s.heap.length s.objs.length s s' ∧
+      ∀ a i, r = .ok (a, i) → FreshObj s.heap.length a s' ∧ (s'.sys i).atoms = a ∧ (s'.sys i).box = box) := by
+  unfold mkSysX
+  rw [post_atomic]
+  simp only [if_true]
+  rw [post_bind]
+  apply Post.mono (Post.and (inv_deepcopy h o) (deepcopy_frame2 h hb o ho))
+  intro r s1 ⟨hm, herr, hok⟩
+  cases r with
+  | error e => exact ⟨ObjFrame.refl _ _ s, fun a i hc => by cases hc⟩
+  | ok a =>
+    simp only []
+    obtain ⟨hf1, hfr1, hlt, hheap1⟩ := hok a rfl
+    have ha : a < s1.objs.length := hm.lt
+    obtain ⟨κ1, hinv1, _, _, _, _⟩ := hm
+    rw [post_bind]
+    apply Post.mono (mkSys_result hinv1 a box pbc symbols masses ha)
+    intro r s2 ⟨hk, hres⟩
+    cases r with
+    | error e => exact ⟨ObjFrame.refl _ _ s, fun a i hc => by cases hc⟩
+    | ok i =>
+      simp only []
+      obtain ⟨hat, hbox⟩ := hres i rfl
+      have hbuf2 : ∀ b, s2.buf b = s1.buf b := by intro b; simp [State.buf, hk.heap]
+      have hobj2 : ∀ o', s2.obj o' = s1.obj o' := by intro o'; simp [State.obj, hk.objs]
+      have hframe2 : ObjFrame s.heap.length s.objs.length s s2 :=
+        ⟨fun b hb' => (hbuf2 b).trans (hf1.1 b hb'), fun o' ho' => (hobj2 o').trans (hf1.2.1 o' ho')⟩
+      have hfr2 : FreshObj s.heap.length a s2 := by
+        intro p hp; rw [hobj2] at hp; exact hfr1 p hp
+      have hheap2 : s.heap.length ≤ s2.heap.length := by rw [hk.heap]; exact hheap1
+      rw [post_bind]
+      cases scale with
+      | false =>
+        exact ⟨hframe2, fun a' i' hc => by
+          have : (Except.ok (a, i) : Except Err (Nat × Nat)) = .ok (a', i') := hc
+          injection this with this
+          injection this with h1 h2
+          subst h1; subst h2
+          exact ⟨hfr2, hat, hbox⟩⟩
+      | true =>
+        simp only [if_true]
+        rw [post_bind_getS, post_bind_keyErr]
+        split
+        · rename_i pa hfind
+          unfold sysPropSetScaled
+          rw [post_bind_getS]
+          simp only []
+          rw [post_bind_liftE]
+          split
+          · rename_i v' hv'
+            rw [hat]
+            show Post (viewSet a "pos" (.lit v')) s2 _
+            apply Post.mono (viewSet_lit_frame a "pos" v' s2 s.heap.length s.objs.length hlt hheap2 hfr2)
+            intro r s3 ⟨hf3, hfr3, _, _⟩
+            have hframe3 : ObjFrame s.heap.length s.objs.length s s3 :=
+              ⟨fun b hb' => (hf3.1 b hb').trans (hframe2.1 b hb'), fun o' ho' => (hf3.2.1 o' ho').trans (hframe2.2 o' ho')⟩
+            cases r with
+            | error e => exact ⟨ObjFrame.refl _ _ s, fun a i hc => by cases hc⟩
+            | ok u =>
+              refine ⟨hframe3, fun a' i' hc => ?_⟩
+              have : (Except.ok (a, i) : Except Err (Nat × Nat)) = .ok (a', i') := hc
+              injection this with this
+              injection this with h1 h2
+              subst h1; subst h2
+              have hsys : s3.sys i = s2.sys i := by simp [State.sys, hf3.2.2]
+              exact ⟨hfr3, by show (s3.sys i).atoms = a; rw [hsys]; exact hat,
+                by show (s3.sys i).box = box; rw [hsys]; exact hbox⟩
+          · exact ⟨ObjFrame.refl _ _ s, fun a i hc => by cases hc⟩
+        · exact ⟨ObjFrame.refl _ _ s, fun a i hc => by cases hc⟩
+
+/-- a bind that returns went through a returning first step. -/
+theorem bind_ok_inv {α β : Type} (m : M α) (f : α → M β) (s s' : State) (b : β) (h : (m >>= f) s = (.ok b, s')) :
+    ∃ a s1, m s = (.ok a, s1) ∧ f a s1 = (.ok b, s') := by
+  change M.bind m f s = _ at h
+  unfold M.bind at h
+  cases hm : m s with
+  | mk r s1 =>
+    rw [hm] at h
+    cases r with
+    | error e => simp at h
+    | ok a => exact ⟨a, s1, rfl, h⟩
+
 end Atomman.C06
